@@ -124,7 +124,12 @@ def _build(d):
                            'DATEDIF:Y', 'YEARFRAC:0', 'YEARFRAC:1',
                            'YEARFRAC:2', 'YEARFRAC:3', 'YEARFRAC:4',
                            'DATEDIF:rev']),
-            'mode': 'formula' if d.pick(4) == 0 else 'call'}
+            'mode': 'formula' if d.pick(4) == 0 else 'call',
+            # KIND of the date arguments (formula mode): serial literal,
+            # DATE(y,m,d) result, a cell holding the serial, a cell holding
+            # =DATE(y,m,d); DATEDIF unit in lower case / from a cell
+            'ak': d.choice(['serial', 'serial', 'date', 'cell', 'datecell']),
+            'lc': d.pick(3) == 0}
 
 
 def strategy(tier):
@@ -295,12 +300,39 @@ def _pair_case(case, res):
     res.nontrivial = a != b
     tol = 0.0
 
+    ak = case.get('ak', 'serial') if a >= 61 else 'serial'
+    if ak != 'serial' and f != 'SUB':
+        mode = 'formula'
+        res.labels = (f.split(':')[0], mode, 'args:' + ak)
+
     def run(fn, *args):
+        if fn == 'DATEDIF' and case.get('lc'):
+            args = args[:2] + (args[2].lower(),)
         if mode == 'call':
             return lib.call_fn(fn, *args), [fn] + list(args)
-        text = '=%s(%s)' % (fn, ','.join(
-            '"%s"' % x if isinstance(x, str) else str(x) for x in args))
-        return lib.eval_formula(text)[0], text
+        cells = {}
+        sp = []
+        for i, x in enumerate(args):
+            if isinstance(x, str):
+                if ak in ('cell', 'datecell'):
+                    cells['Sheet1!C%d' % (i + 1)] = x
+                    sp.append('C%d' % (i + 1))
+                else:
+                    sp.append('"%s"' % x)
+            elif ak == 'serial' or i > 1 or x < 61:
+                sp.append(str(x))
+            else:
+                dx = RD.to_date(x)
+                dtxt = 'DATE(%d,%d,%d)' % (dx.year, dx.month, dx.day)
+                if ak == 'date':
+                    sp.append(dtxt)
+                else:
+                    cells['Sheet1!B%d' % (i + 1)] = (
+                        x if ak == 'cell' else '=' + dtxt)
+                    sp.append('B%d' % (i + 1))
+        text = '=%s(%s)' % (fn, ','.join(sp))
+        return lib.eval_formula(text, cells or None,
+                                addr='Sheet1!Z1')[0], [text, cells]
     if f == 'DAYS':
         o, note = run('DAYS', b, a)
         want = N(days)
